@@ -32,15 +32,28 @@ pub fn wrap_decl(source: &str) -> String {
 
 pub const V_PRELUDE: &str = "#![allow(dead_code, unused_imports, unused_variables, deprecated, non_camel_case_types)]\nuse arbitrary_int::*;\n";
 
-fn check_args(macro_profile: &str) -> Vec<&'static str> {
-    let mut a = vec!["check", "--offline", "--message-format=json"];
+/// "dev" / "release": profile the proc-macro (and the generated crates) are compiled in; suffix "-tests": the
+/// crates are checked as test targets (cfg(test)); suffix "-asdep": the crates are compiled as dependencies of
+/// `<name>_dep` instead of as primary packages
+fn check_args(macro_profile: &str, crate_name: &str) -> Vec<String> {
+    let mut a: Vec<String> = vec!["check".into(), "--offline".into(), "--keep-going".into(), "--message-format=json".into()];
     if macro_profile.starts_with("release") {
-        a.push("--release");
+        a.push("--release".into());
     }
     if macro_profile.ends_with("-tests") {
-        a.push("--tests");
+        a.push("--tests".into());
+    }
+    if macro_profile.ends_with("-asdep") {
+        a.push("-p".into());
+        a.push(format!("{}_dep", crate_name));
     }
     a
+}
+
+fn run_check(dir: &std::path::Path, macro_profile: &str, crate_name: &str) -> cargo::CargoOut {
+    let args = check_args(macro_profile, crate_name);
+    let argv: Vec<&str> = args.iter().map(|s| s.as_str()).collect();
+    cargo(dir, None, &argv, "gen", &[])
 }
 
 fn is_macro_broken(out: &cargo::CargoOut) -> bool {
@@ -58,8 +71,9 @@ pub fn check_decls(rc: &RunCtx, tag: &str, items: &[(usize, String)], macro_prof
     while !live.is_empty() {
         rounds += 1;
         let files: Vec<(String, String)> = live.iter().map(|(id, src)| (format!("d{}", id), format!("{}{}", V_PRELUDE, src))).collect();
-        write_v_crate(&dir, &format!("vcrate_{}_{}", rc.prop.to_lowercase(), tag.replace('-', "_")), &files, false, false);
-        let out = cargo(&dir, None, &check_args(macro_profile), "gen", &[]);
+        let cname = format!("vcrate_{}_{}", rc.prop.to_lowercase(), tag.replace('-', "_"));
+        write_v_crate(&dir, &cname, &files, false, false);
+        let out = run_check(&dir, macro_profile, &cname);
         if is_macro_broken(&out) {
             inconclusive(&format!("the bitbybit crate does not build from /repo: {}", cargo::tail(&out.stderr, 5)));
         }
@@ -131,8 +145,9 @@ pub fn check_probes(rc: &RunCtx, tag: &str, items: &[VItem], macro_profile: &str
         if files.is_empty() {
             continue;
         }
-        write_v_crate(&dir, &format!("vcrate_{}_{}_p{}", rc.prop.to_lowercase(), tag.replace('-', "_"), pass), &files, false, false);
-        let out = cargo(&dir, None, &check_args(macro_profile), "gen", &[]);
+        let cname = format!("vcrate_{}_{}_p{}", rc.prop.to_lowercase(), tag.replace('-', "_"), pass);
+        write_v_crate(&dir, &cname, &files, false, false);
+        let out = run_check(&dir, macro_profile, &cname);
         if is_macro_broken(&out) {
             inconclusive(&format!("the bitbybit crate does not build from /repo: {}", cargo::tail(&out.stderr, 5)));
         }
@@ -173,8 +188,9 @@ pub fn check_isolated(rc: &RunCtx, source: &str, probe: Option<&str>, macro_prof
         src.push_str(p);
         src.push('\n');
     }
-    write_v_crate(&dir, &format!("vcrate_{}_iso", rc.prop.to_lowercase()), &[("d0".to_string(), src)], false, false);
-    let out = cargo(&dir, None, &check_args(macro_profile), "gen", &[]);
+    let cname = format!("vcrate_{}_iso", rc.prop.to_lowercase());
+    write_v_crate(&dir, &cname, &[("d0".to_string(), src)], false, false);
+    let out = run_check(&dir, macro_profile, &cname);
     if is_macro_broken(&out) {
         inconclusive(&format!("the bitbybit crate does not build from /repo: {}", cargo::tail(&out.stderr, 5)));
     }
@@ -194,8 +210,9 @@ pub fn check_isolated(rc: &RunCtx, source: &str, probe: Option<&str>, macro_prof
 pub fn check_isolated_opts(rc: &RunCtx, source: &str, no_std: bool, deny_docs: bool) -> Vec<String> {
     let dir: PathBuf = rc.work.join("iso-regime");
     let src = format!("//! generated module\n#![allow(unused_imports)]\nuse arbitrary_int::*;\n{}", source);
-    write_v_crate(&dir, &format!("vcrate_{}_isor", rc.prop.to_lowercase()), &[("d0".to_string(), src)], no_std, deny_docs);
-    let out = cargo(&dir, None, &check_args("dev"), "gen", &[]);
+    let cname = format!("vcrate_{}_isor", rc.prop.to_lowercase());
+    write_v_crate(&dir, &cname, &[("d0".to_string(), src)], no_std, deny_docs);
+    let out = run_check(&dir, "dev", &cname);
     if is_macro_broken(&out) {
         inconclusive(&format!("the bitbybit crate does not build from /repo: {}", cargo::tail(&out.stderr, 5)));
     }
